@@ -119,7 +119,6 @@ def parseEv : List String → Option Ev
   | ["gpumem", _] => some .nop
   | ["closedelay", _] => some .nop
   | ["closefail", _, _] => some .nop     -- the mock's Close returns an error from now on: the scheduler ignores it
-  | ["envspell", _] => some .nop         -- spelling (quotes, spaces) of the OLLAMA_* variables: same configured values
   | ["envspell", _] => some .nop         -- spelling of the OLLAMA_* values the driver writes (first event only); values = header
   | _ => none
 
